@@ -860,6 +860,57 @@ example : ∃ s', integrateNode (init inpA) 0 2 = .ok s' ∧ genIntegrateNode 0 
   | error e => rw [hi] at h; cases h
   | ok s' => exact ⟨s', rfl, by rw [integrateNode_matches_source, hi]; rfl⟩
 
+/-! ### `VMNetwork.__init__` -/
+
+theorem placeAll_append (l1 l2 : List Nat) : ∀ s : Net,
+    placeAll s (l1 ++ l2) = (match placeAll s l1 with | .error e => .error e | .ok s' => placeAll s' l2) := by
+  induction l1 with
+  | nil => intro s; rfl
+  | cons i rest ih =>
+    intro s
+    simp only [List.cons_append, placeAll]
+    cases place s i with
+    | error e => rfl
+    | ok s' => exact ih s'
+
+/-- the loop of the constructor over the vms, each with its own `integrate_node`, is one `placeAll` over all interface
+    objects in creation order -/
+theorem genInit_eq (counts : List Nat) : ∀ (first : Nat) (s : Net),
+    genInit first counts s = (placeAll s (List.range' first counts.sum)).map (fun s' => ((), s')) := by
+  induction counts with
+  | nil => intro first s; rfl
+  | cons k rest ih =>
+    intro first s
+    have hr : List.range' first (k :: rest).sum = List.range' first k ++ List.range' (first + k) rest.sum := by
+      rw [List.sum_cons, List.range'_append_1]
+    rw [hr, placeAll_append]
+    simp only [genInit, genInitNode, newNode, bind, StateT.bind, Except.bind, pure, StateT.pure, Except.pure]
+    have := integrateNode_matches_source s first k
+    unfold integrateNode at this
+    rw [this]
+    cases placeAll s (List.range' first k) with
+    | error e => rfl
+    | ok s' => simp only [Except.map]; exact ih (first + k) s'
+
+/-- `VMNetwork.__init__` (avocado_i2n/vmnet/network.py): the generated loop over the vms — for every vm a node object
+    and `integrate_node` (translated), the vm lookup pinned, the registry empty in front of the loop (checked) — run on
+    the model's initial state is the model's `build`, for every list of interfaces and every split of them into vms
+    (`counts` = the number of nics of every vm, in order). -/
+theorem init_matches_source (inp : List Iface) (counts : List Nat) (h : counts.sum = inp.length) :
+    genInit 0 counts (init inp) = (build inp).map (fun s' => ((), s')) := by
+  rw [genInit_eq, h]
+  unfold build
+  rw [List.range_eq_range']
+
+/-- non-vacuity: the selftest network, two vms with two nics each -/
+example : ([2, 2] : List Nat).sum = inpA.length := by decide
+
+example : ∃ s', build inpA = .ok s' ∧ genInit 0 [2, 2] (init inpA) = .ok ((), s') := by
+  have h : isOk (build inpA) = true := by decide +kernel
+  cases hi : build inpA with
+  | error e => rw [hi] at h; cases h
+  | ok s' => exact ⟨s', rfl, by rw [init_matches_source inpA [2, 2] (by decide), hi]; rfl⟩
+
 end TranslatorTieNetwork
 
 end I2N.Props.C18
